@@ -35,10 +35,10 @@ def table() -> dict[str, Prop]:
     reg(Prop("C11", "typestate over every path (normal and raising) of every Ruler method: rule state is never left mutated "
              "with a possibly valid chain cache; only class Ruler writes the rule list, the cache and Rule fields; the "
              "compiled chains are exactly the enabled rules filtered by chain, in registration order",
-             [RR.rule_cache, RR.rule_wmw, RR.rule_chain],
+             [RR.rule_cache, RR.rule_wmw, RR.rule_chain, RR.rule_setsem],
              assumptions=["exceptions considered: explicit raise statements and raising exits of other Ruler methods "
                           "(a user-supplied iterable that raises while being iterated is not modelled)"],
-             not_decided="the 'obvious set semantics' of the reported set after a partially applied failing call"))
+             not_decided="the reported set after a *partially applied failing* call (which names were switched before the raise)"))
     from .rules import eff_rules as EF
     reg(Prop("C12", "parse/render-reachable code writes no module, class or instance state other than per-call objects (effect "
              "classification by the type of the object written); no mutable default / class-level mutable; preset objects never "
@@ -184,6 +184,7 @@ def table() -> dict[str, Prop]:
     # rules shared across properties (appended here because their modules are imported above)
     props["C01"].rules.append(GD.rule_guard)           # cap branch must consume its range (else: non-termination)
     props["C11"].rules.append(SW.rule_fanout)          # the same coherence through the facade
+    props["C14"].rules.append(RR.rule_swallow)         # an exception from user code propagates
     props["C14"].rules.append(SW.rule_fanout)          # reset_rules restores all four rulers with enableOnly
     props["C13"].rules.append(EF.rule_alias)           # class-level mutables are shared between concurrent parses too
     return props
